@@ -657,6 +657,12 @@ func (p *Parser) parseFieldElements(curObj *Object) parseResult {
 					}
 				}
 
+				// The buffer contents must lie within the buffer package
+				if dataLen > uint64(p.r.pkgEnd-p.r.Offset()) {
+					kfmt.Fprintf(p.errWriter, "[table: %s, offset: 0x%x] Connection buffer length exceeds the buffer package\n", p.tableName, p.r.Offset())
+					return parseResultFailed
+				}
+
 				connArg = p.objTree.newObject(pOpIntByteList, p.tableHandle)
 				connArg.amlOffset = origOffset
 				p.parseByteList(connArg, uint32(dataLen))
